@@ -333,3 +333,18 @@ PROPS["C10"]["explanation"] += (" TankLevelCondition.__init__ / _reset are under
 
 PROPS["C03"]["explanation"] += (" The differentials include API-built networks for a TCV whose setting a control changes, valves with initial status Open, a rule with two ELSE "
                                 "actions (also as INP text for the reader validation) and a low-head network where the pressure-demand relation is active everywhere.")
+
+_COMPANION = (" Bounded companion that does not depend on the shape of the code (labelled bounded, never counted as proved): the property's own observable checked on the reported "
+              "results of real WNTRSimulator runs - %s.")
+PROPS["C01"]["explanation"] += _COMPANION % "C01.balance_on_runs (flows, demands and leak demands balance at every node at every reported step; files, special and generated networks, DD and PDD)"
+PROPS["C02"]["explanation"] += _COMPANION % "C02.laws_on_runs (every link obeys the law of its type and reported status; active PRV / PSV / FCV / TCV, pump curves, both Hazen-Williams forms)"
+PROPS["C04"]["explanation"] += _COMPANION % "C04.control_instants (random schedules of time controls and rules with report step ALL: every instant at which the prescribed status changes is a solved step)"
+PROPS["C05"]["explanation"] += _COMPANION % "C05.conditional_consistency (every simple control whose condition holds on the reported state finds its target in the commanded state; tank thresholds met by a partial step)"
+PROPS["C06"]["explanation"] += _COMPANION % "C06.cylindrical_tanks (volume change = reported net inflow x elapsed time per pair of solved steps, levels within the limits to two seconds of flow)"
+PROPS["C07"]["explanation"] += _COMPANION % "C07.curve_on_runs (delivered = requested x documented fraction of the reported pressure)"
+PROPS["C08"]["explanation"] += _COMPANION % "C08.leaks_on_runs (leak demand = Cd A sqrt(2 g p) inside its window, zero outside; the window's ends are solved steps)"
+PROPS["C09"]["explanation"] += _COMPANION % "C01.balance_on_runs (junctions joined to a source by links that are not closed get their requested demand, junctions cut off from every source report zero)"
+PROPS["C16"]["explanation"] += _COMPANION % "C16.fault_injection (solver failures injected at chosen solves: exception iff asked for, otherwise warning + error code, well-formed tables, rows before the failure equal to the fault-free run)"
+for _p in ("C01", "C02", "C05", "C08", "C10", "C14"):
+    PROPS[_p]["explanation"] += (" A case whose proof is undecided because the code left the subset the stubs / loop specifications cover is also attacked by sampling its precondition "
+                                 "on the real code (a real failing input is a violation; no failing input leaves it undecided).")
